@@ -1082,17 +1082,23 @@ impl World {
 			);
 			if heavy {
 				out.raw(&format!("#ORACLE-FAIL C14 pool holds a transaction over the weight limit: {}", desc));
-			} else if self.lowfee_known.contains(&sig) {
-				if place != "reorg-cache" {
-					out.raw(&format!("#KNOWN-PROBE C14 low-fee-admitted-when-over-capacity: (still held / replayed from the reorg cache) {}", desc));
-				}
-			} else if self.over_capacity_before {
-				// the recorded finding: is_acceptable reports OverCapacity before looking at the fee
-				self.lowfee_known.insert(sig);
-				out.raw(&format!("#KNOWN-PROBE C14 low-fee-admitted-when-over-capacity: {}", desc));
-				self.stat("finding:low-fee-admitted-when-over-capacity");
 			} else {
-				out.raw(&format!("#ORACLE-FAIL C14 {}", desc));
+				// The finding C14-low-fee-admitted-over-capacity (is_acceptable reported OverCapacity
+				// before looking at the fee) is repaired (3aef11dd9): an under-paying entry anywhere -
+				// txpool, stempool, reorg cache - is an oracle failure.  The probe line of the finding
+				// is still printed under its old condition (first seen right after a submission into
+				// an over-capacity txpool, or held / replayed afterwards), so that its reappearance is
+				// reported as a regression of the fix.
+				if self.lowfee_known.contains(&sig) {
+					if place != "reorg-cache" {
+						out.raw(&format!("#KNOWN-PROBE C14 low-fee-admitted-when-over-capacity: (still held / replayed from the reorg cache) {}", desc));
+					}
+				} else if self.over_capacity_before {
+					self.lowfee_known.insert(sig);
+					out.raw(&format!("#KNOWN-PROBE C14 low-fee-admitted-when-over-capacity: {}", desc));
+					self.stat("finding:low-fee-admitted-when-over-capacity");
+				}
+				out.raw(&format!("#ORACLE-FAIL C14 pool-entry-pays-less-than-minimum-fee {}", desc));
 			}
 		}
 	}
@@ -2235,8 +2241,10 @@ fn scenario_evict_chain(work: &str, out: &mut Out, total: &mut BTreeMap<String, 
 	}
 }
 
-/// `is_acceptable` returns OverCapacity before looking at the fee; `add_to_pool` treats that as
-/// "admit, then evict": is a low-fee transaction admitted when the pool is over capacity?
+/// Regression scenario for C14-low-fee-admitted-over-capacity (repaired in 3aef11dd9: the fee is
+/// checked before the capacity).  `is_acceptable` used to return OverCapacity before looking at the
+/// fee and `add_to_pool` treats that as "admit, then evict": low-fee transactions submitted while
+/// the txpool is over capacity must be refused with LowFee.
 fn scenario_low_fee_at_capacity(work: &str, out: &mut Out, total: &mut BTreeMap<String, u64>) {
 	let mut rng = Rng::new(78);
 	let mut w = World::new(work, "low-fee-at-capacity", Cfg { max_pool: 1, max_stem: 50, mine_w: 250 });
